@@ -133,7 +133,9 @@ def rule_keep_unsynchronized(ctx):
         # direction: backup copies p_jh into the scratch buffer, restore copies it back
         if not ('p_jh' in backup[2][1] and 'p_jh' in restore[2][0] and backup[2][0] == restore[2][1]):
             ctx.report('R09.3', fname + ':direction', where, 'backup/restore do not copy p_jh to the scratch buffer and back: %s / %s' % (backup[2], restore[2]))
-        norm = lambda s: s.replace('(', '').replace(')', '').replace(' ', '')
+        from . import extents as _ext
+        _L = {k_: v_ for k_, v_ in _ext.lets(fn).items()}
+        norm = lambda s: _ext.resolve(s, _L).replace('(', '').replace(')', '').replace(' ', '')
         def factors(s):
             return sorted(norm(s).split('*'))
         if factors(backup[2][2]) != factors(restore[2][2]):
